@@ -1,14 +1,22 @@
 #!/bin/bash
-# usage: seedtest.sh <seed-dir-name e.g. C03-2> [check ids...]  — applies the seeded change to a scratch worktree of /repo HEAD and runs checks against it
+# usage: seedtest.sh <seed-dir-name e.g. C03-2> [check ids...]
+# Applies the seeded change to a scratch worktree of /repo HEAD and runs checks against it.  Everything the run
+# writes goes to scratch copies (worktree, lake project, evidence/replays), so /verif and /repo stay untouched
+# and several seeds can be tested in parallel.  Scratch is removed at the end.
 set -u
 S=$1; shift
-W=/tmp/sw_$S
+W=/tmp/sw_$S; L=/tmp/lw_$S; O=/tmp/ow_$S
 git -C /repo worktree remove --force $W >/dev/null 2>&1
+rm -rf $L $O
 git -C /repo worktree add -q --detach $W HEAD || exit 2
 git -C $W apply /verif/seeded/$S/patch.diff || { echo "patch does not apply"; git -C /repo worktree remove --force $W; exit 2; }
+cp -a /verif/lean $L; mkdir -p $O/evidence $O/replays
 PIDS="$@"; [ -z "$PIDS" ] && PIDS=${S%%-*}
 for P in $PIDS; do
   echo "== seeded $S vs check $P"
-  VERIF_REPO=$W /venv/bin/python /verif/tools/check.py $P 2>&1 | grep -E "VIOLATION|KNOWN|obligations|HARNESS"
+  VERIF_REPO=$W VERIF_LEAN=$L VERIF_OUT=$O /venv/bin/python /verif/tools/check.py $P 2>&1 | grep -E "VIOLATION|KNOWN|obligations|HARNESS"
+  for f in $O/replays/*.json; do [ -f "$f" ] && echo "REPLAYKEY $(python3 -c "import json,sys;print(json.load(open(sys.argv[1])).get('key'))" $f)"; done
+  rm -f $O/replays/*.json
 done
 git -C /repo worktree remove --force $W
+rm -rf $L $O
